@@ -18,7 +18,8 @@ SLICES = {
         'module': 'LcdbModel.Props.PolicyProps', 'gen': ('gens_policy', 'gen_policy'),
         'theorems': [P + t for t in ('findFile_in_bounds', 'findFile_eq_find', 'levelFile_eq_findFile', 'someFileOverlapsRange_iff',
                                      'getOverlappingInputs_spec', 'versionGoi_total', 'pickLevel_establishes_flush_clause', 'addBoundaryInputs_spec',
-                                     'setupOtherInputs_establishes_contract', 'compactRange_establishes_contract')],
+                                     'setupOtherInputs_establishes_contract', 'compactRange_establishes_contract',
+                                     'pickCompaction_establishes_contract', 'pickCompaction_size_establishes_contract', 'pickCompaction_seek_establishes_contract')],
     },
     'wfile': {
         'what': 'buffered writable file (ldb_wfile_append/flush/sync/close), ldb_write_file, ldb_set_current_file, log record emission under '
@@ -45,7 +46,8 @@ SLICES['cache'] = {
     'module': 'LcdbModel.Props.LruCacheProps', 'gen': ('gens_cache', 'gen_cache'),
     'theorems': [L + t for t in ('run_total', 'run_from_empty', 'latest_spec', 'lookup_coherent', 'lookup_out_coherent', 'pinned_never_deleted', 'deleted_once',
                                  'shutdown_deletes_all', 'usage_is_sum', 'capacity_respected', 'capacity_preserved', 'lru_order', 'release_appends',
-                                 'lookup_unlinks', 'prune_deletes_lru', 'invariants', 'htable_is_map', 'shardOf_lt', 'cache_insert_local', 'newId_fresh')],
+                                 'lookup_unlinks', 'prune_deletes_lru', 'invariants', 'htable_is_map', 'shardOf_lt', 'cache_insert_local', 'newId_fresh',
+                                 'cache_shard_run', 'cache_inv', 'cache_lookup_coherent', 'cache_pinned_never_deleted', 'cache_deleted_once', 'cache_usage_is_sum')],
 }
 
 # property -> slices (quick size, thorough size)
